@@ -208,7 +208,7 @@ def install(e) -> None:
         it.e.used("copy.copy(x): a value equal to x (value semantics; shallow sharing is the freshness obligation's business)")
         return v
 
-    e.std_bindings["copy"] = VConst({"copy": VConst(copy_copy)})
+    e.std_bindings["copy"] = VConst({"copy": VConst(copy_copy), "deepcopy": VConst(copy_copy)})
     e.std_bindings["collections"] = VConst({"abc": VConst({"Mapping": VConst(("class", "Mapping", {})),
                                                           "MutableMapping": VConst(("class", "MutableMapping", {}))})})
     e.std_bindings["dict"] = VConst(("class", "dict", {}))
